@@ -1,18 +1,7 @@
 (* C03: the operator dispatcher against the reference table. *)
 From Coq Require Import Floats.SpecFloat.
 Require Import Model.Base Model.Syntax Model.F64 Model.Lexer Model.Value Model.Context Model.Builtins Model.Eval.
-Require Import Spec.OpTable.
-
-(* well-formed values: every integer is a 64-bit integer *)
-Fixpoint wf (v : value) : Prop :=
-  match v with
-  | VInt i => in_i64 i = true
-  | VTuple l => (fix all (l : list value) : Prop := match l with [] => True | x :: l' => wf x /\ all l' end) l
-  | _ => True
-  end.
-
-Lemma in_i64_spec z : in_i64 z = true <-> (i64_min <= z <= i64_max).
-Proof. unfold in_i64. rewrite andb_true_iff, !Z.leb_le. tauto. Qed.
+Require Import Spec.OpTable Proofs.Common.
 
 Lemma quot_in_range x y : in_i64 x = true -> in_i64 y = true -> y <> 0 ->
   ~ (x = i64_min /\ y = -1) -> in_i64 (Z.quot x y) = true.
@@ -165,17 +154,6 @@ Lemma str_eqb_eq x y : str_eqb x y = true <-> x = y.
 Proof.
   revert y; induction x as [|c x IH]; intros [|d y]; cbn; try (split; [discriminate|discriminate]); [tauto|].
   rewrite andb_true_iff, N.eqb_eq, IH. split; [intros [-> ->]; reflexivity|inversion 1; auto].
-Qed.
-
-(* induction principle for values with the nested list *)
-Lemma value_ind' (P : value -> Prop) :
-  (forall s, P (VString s)) -> (forall f, P (VFloat f)) -> (forall i, P (VInt i)) -> (forall b, P (VBool b)) ->
-  (forall l, Forall P l -> P (VTuple l)) -> P VEmpty -> forall v, P v.
-Proof.
-  intros Hs Hf Hi Hb Ht He. fix IH 1. intros [s|f|i|b|l|].
-  - apply Hs. - apply Hf. - apply Hi. - apply Hb.
-  - apply Ht. induction l as [|x l IHl]; constructor; [apply IH|exact IHl].
-  - exact He.
 Qed.
 
 Lemma value_eqb_spec a : forall b, value_eqb a b = true <-> veq a b.
